@@ -25,6 +25,29 @@ def load(proc):
     return prog
 
 
+def aliased(proc, keep, gone):
+    """the procedure as it runs when the caller passes ONE variable for the parameters `keep` and `gone` (BASIC09 passes
+    variables by reference; the tool emits such calls for `A$ = STRING$(3, A$)`, `I = INSTR(I, A$, B$)`, `A = INT(A)`):
+    every occurrence of `gone` names the storage of `keep`"""
+    import types
+
+    rx = re.compile(r"(?i)(?<![A-Za-z0-9_$])" + re.escape(gone) + r"(?![A-Za-z0-9_$])")
+    lines = []
+    for ln in proc.lines:
+        m = re.match(r"(?i)^(\s*param\s+)([^:]*)(:.*)$", ln)
+        if m:
+            names = [n.strip() for n in m.group(2).split(",")]
+            if gone.lower() in [n.lower() for n in names]:
+                names = [n for n in names if n.lower() != gone.lower()]
+                if not names:
+                    continue
+                ln = m.group(1) + ", ".join(names) + m.group(3)
+            lines.append(ln)
+        else:
+            lines.append(rx.sub(keep, ln))
+    return types.SimpleNamespace(lines=lines, params=[p_ for p_ in proc.params if p_[0].lower() != gone.lower()], name=proc.name if hasattr(proc, "name") else "")
+
+
 def run_proc(proc, premises, for_semantics, step_bound):
     sem = machine.Sem("real")
     prog = load(proc)
@@ -52,9 +75,11 @@ def final(leaf, m, name):
     return m.read_var(leaf, name.upper())[1]
 
 
-def check_instr(ctx, lib, K):
+def check_instr(ctx, lib, K, alias=False):
     proc = lib["ecb_instr"]
     ctx.encode("ecb.b09 procedure ecb_instr", "\n".join(proc.lines))
+    if alias:
+        proc = aliased(proc, "index", "outindex")  # I = INSTR(I, A$, B$) is emitted as run ecb_instr(I, A$, B$, I)
     verdicts = {}
     for sem_name in ("pretest", "bodyonce"):
         def premises(c):
@@ -63,6 +88,8 @@ def check_instr(ctx, lib, K):
             return str_ok(c["str0"], K) + str_ok(c["str1"], K) + [z3.Or(z3.Length(c["str1"]) >= 1, z3.ToInt(c["index"]) <= z3.Length(c["str0"]))] + integral(c["index"], 1, K + 1)
 
         sem, m, c, leaves = run_proc(proc, premises, sem_name, 40 + 12 * K)
+        if alias:
+            c["outindex"] = c["index"]
         ctx.stats["states"] += len(leaves)
         s0, s1, idx = c["str0"], c["str1"], z3.ToInt(c["index"])
         n0, n1 = z3.Length(s0), z3.Length(s1)
@@ -82,7 +109,7 @@ def check_instr(ctx, lib, K):
             if leaf.status == "bound":
                 reached_bound = True
                 continue
-            out = final(leaf, m, "outindex")
+            out = final(leaf, m, "index" if alias else "outindex")
             ctx.stats["obligations"] += 1
             v, mdl = smt.check(list(leaf.cond) + [ref, out != z3.ToReal(r)], 60000, True)
             ctx.stats[v] += 1
@@ -93,25 +120,34 @@ def check_instr(ctx, lib, K):
         if reached_bound:
             ctx.note_inconclusive(f"ecb_instr: a path exceeded the step bound under {sem_name}")
         verdicts[sem_name] = bad
-        ctx.sample({"procedure": "ecb_instr", "for_reading": sem_name, "paths": len(leaves), "K": K, "counterexample": bad})
+        ctx.sample({"procedure": "ecb_instr", "for_reading": sem_name, "paths": len(leaves), "K": K, "counterexample": bad, "start index and result share one variable": alias})
     if all(v is not None for v in verdicts.values()):
         b = verdicts["pretest"]
         # classify by which clause of the definition fails on the (replayed) witness
+        if alias:
+            ctx.violation("ecb_instr:wrong-result:result-variable-is-the-start-index", f"I = INSTR(I, {b['str0']}, {b['str1']}) with I = {b['index']} (emitted as run ecb_instr(I, .., .., I); BASIC09 passes variables by reference): procedure leaves {b['got']}, Color BASIC gives {b['expected']} (both zero-trip readings)", {"witness": verdicts})
+            return verdicts
         ctx.violation("ecb_instr:wrong-result", f"INSTR({b['index']}, {b['str0']}, {b['str1']}) with previous output {b['previous outindex']}: procedure leaves {b['got']}, Color BASIC gives {b['expected']} (both zero-trip readings)", {"witness": verdicts})
     elif any(v is not None for v in verdicts.values()):
         ctx.note_inconclusive("ecb_instr: verdict depends on whether a zero-trip FOR runs its body: " + str(verdicts))
     return verdicts
 
 
-def check_string(ctx, lib, K, maxcount):
+def check_string(ctx, lib, K, maxcount, alias=False):
     proc = lib["ecb_string"]
     ctx.encode("ecb.b09 procedure ecb_string", "\n".join(proc.lines))
+    outname = "strout"
+    if alias:
+        proc = aliased(proc, "str", "strout")  # A$ = STRING$(3, A$) is emitted as run ecb_string(3.0, A$, A$)
+        outname = "str"
     verdicts = {}
     for sem_name in ("pretest", "bodyonce"):
         def premises(c):
-            return str_ok(c["str"], K) + str_ok(c["strout"], K) + integral(c["count"], -1, maxcount)
+            return str_ok(c["str"], K) + (str_ok(c["strout"], K) if not alias else []) + integral(c["count"], -1, maxcount)
 
         sem, m, c, leaves = run_proc(proc, premises, sem_name, 30 + 6 * maxcount)
+        if alias:
+            c["strout"] = c["str"]
         ctx.stats["states"] += len(leaves)
         s, cnt = c["str"], z3.ToInt(c["count"])
         bad = None
@@ -126,7 +162,7 @@ def check_string(ctx, lib, K, maxcount):
                 v, mdl = smt.check(list(leaf.cond) + [z3.Not(should_fail)], 60000, True)
                 what = "error raised for a legal call"
             else:
-                out = final(leaf, m, "strout")
+                out = final(leaf, m, outname)
                 first = z3.SubString(s, 0, 1)
                 # expected: first character repeated count times
                 rep = z3.StringVal("")
@@ -140,11 +176,15 @@ def check_string(ctx, lib, K, maxcount):
             ctx.stats[v] += 1
             if v == "sat" and bad is None:
                 bad = {"what": what, "count": str(mdl.eval(c["count"], model_completion=True)), "str": str(mdl.eval(s, model_completion=True)),
-                       "previous strout": str(mdl.eval(c["strout"], model_completion=True)), "got": "error" if leaf.status == "error" else str(mdl.eval(final(leaf, m, "strout"), model_completion=True))}
+                       "previous strout": str(mdl.eval(c["strout"], model_completion=True)), "got": "error" if leaf.status == "error" else str(mdl.eval(final(leaf, m, outname), model_completion=True))}
             elif v == "unknown":
                 ctx.note_inconclusive(f"ecb_string path under {sem_name}")
         verdicts[sem_name] = bad
         ctx.sample({"procedure": "ecb_string", "for_reading": sem_name, "paths": len(leaves), "max_count": maxcount, "counterexample": bad})
+    if alias and all(v is not None for v in verdicts.values()):
+        b = verdicts["pretest"]
+        ctx.violation(f"ecb_string:{b['what'].replace(' ', '-')}:result-variable-is-the-argument", f"A$ = STRING$({b['count']}, A$) with A$ = {b['str']} (emitted as run ecb_string(n, A$, A$); BASIC09 passes variables by reference): {b['what']}, procedure gives {b['got']} (both zero-trip readings)", {"witness": verdicts})
+        return verdicts
     if all(v is not None for v in verdicts.values()):
         b = verdicts["pretest"]
         ctx.violation(f"ecb_string:{b['what'].replace(' ', '-')}:count={'0' if b['count'] == '0' else 'max' if b['count'] == str(maxcount) else 'n'}", f"STRING$({b['count']}, {b['str']}): {b['what']}, procedure gives {b['got']} (both zero-trip readings)", {"witness": verdicts})
@@ -194,16 +234,26 @@ def check_string_argument_check(ctx, lib, K):
         ctx.violation("ecb_string:loop-bounds", f"repeat loop is not `FOR v = 1 TO count`: {head}", {"loop": str(head)})
     else:
         ctx.stats["identity"] += 1
-    body = [st for st in stmts[: fors[0]] if st[0] in ("param", "dim")] + stmts[fors[0] + 1 : nexts[0]]
-    prog = machine.lower(body, "b09")
+    # the statements before the loop run as they are (argument check, whatever they set up); then the output so far is
+    # replaced by an arbitrary string (a parameter added for the purpose) and the loop body runs once
+    lines = [ln for ln in proc.lines]
+    li_for = [i for i, ln in enumerate(lines) if re.match(r"(?i)\s*for\b", ln)]
+    li_next = [i for i, ln in enumerate(lines) if re.match(r"(?i)\s*next\b", ln)]
+    if len(li_for) != 1 or len(li_next) != 1:
+        raise HarnessError("ecb_string: expected exactly one FOR line")
+    text = "\n".join(["param havoc_strout: string"] + lines[: li_for[0]] + ["strout = havoc_strout"] + lines[li_for[0] + 1 : li_next[0]])
+    prog = machine.lower(b09front.parse_program(text), "b09")
     sem2 = machine.Sem("real")
     m2 = machine.Machine(prog, sem2, init_mode="symbolic", interp_strings=True, for_semantics="pretest")
     st0 = machine.initial_state()
-    s_in, o_in = sem2.const("init_STR", "s"), sem2.const("init_STROUT", "s")
-    st0.cond = str_ok(s_in, K) + [z3.Length(s_in) >= 1, z3.Length(o_in) <= 8]
-    for leaf in m2.run(st0, 20):
+    s_in, o_in = sem2.const("init_STR", "s"), sem2.const("init_HAVOC_STROUT", "s")
+    st0.cond = str_ok(s_in, K) + [z3.Length(s_in) >= 1, z3.Length(o_in) <= 8, z3.ToInt(sem2.const("init_COUNT", "n")) >= 1] + integral(sem2.const("init_COUNT", "n"), 1, 255)
+    for leaf in m2.run(st0, 30):
         ctx.stats["states"] += 1
         ctx.stats["obligations"] += 1
+        if leaf.status == "error":
+            ctx.violation("ecb_string:loop-step", "the statements before the loop raise an error for a legal call", {})
+            continue
         out = m2.read_var(leaf, "STROUT")[1]
         v, mdl = smt.check(list(leaf.cond) + [out != z3.Concat(o_in, z3.SubString(s_in, 0, 1))], 30000, True)
         ctx.stats[v] += 1
@@ -351,6 +401,9 @@ def run(tier):
             raise HarnessError(f"library has no procedure {name}")
     check_instr(ctx, lib, K)
     check_string(ctx, lib, K, maxcount)
+    # the same two procedures called the way the tool calls them when the assignment target is also an argument
+    check_instr(ctx, lib, K, alias=True)
+    check_string(ctx, lib, K, maxcount, alias=True)
     check_string_argument_check(ctx, lib, K)
     check_read_filter(ctx, lib)
     check_data_items(ctx, tier)
